@@ -1,5 +1,6 @@
 import AslModel.FileText
 import AslProofs.FileText
+import AslProofs.FileShr
 /-!
 # C17 — File and TextFile return exactly the bytes, text and lines that were written
 
@@ -1255,6 +1256,76 @@ theorem le32_spec (n : Nat) :
   · rfl
   · simp only [le32, List.foldr_cons, List.foldr_nil, UInt8.toNat_ofNat', Nat.shiftRight_eq_div_pow]
     omega
+
+/-! ### reading back with the stream operators: `file >> x` for a `String` written as `file << int(s.length()) << s` -/
+
+/-- the int32 that `>>` reads from the four bytes `<< int` wrote is the value written -/
+theorem shr_int_inverse (n : Nat) (hn : n < 2147483648) (rest : Bytes) (e : Bool) :
+    readI32 { rest := le32 n ++ rest, eof := e } = ((n : Int), { rest := rest, eof := e }) := by
+  have h4 : fread 4 { rest := le32 n ++ rest, eof := e } = (le32 n, { rest := rest, eof := e }) := by
+    simp [fread, le32]
+    intro h; have := of_decide_eq_true h; omega
+  have hv : leVal (le32 n) = n % 4294967296 := (le32_spec n).2
+  simp only [readI32, h4, hv, toI32]
+  have : n % 4294967296 % 4294967296 = n := by omega
+  simp only [this, hn, if_true]
+
+/-- **shr_string_inverse** (`File::operator>>(String&)` is the inverse of `file << int(s.length()) << s`): for every byte
+    string `s` shorter than 2³¹, whatever follows it in the file and whatever the size `blk ≥ 1` of the read buffer (1024 in
+    the code): the string read is `s`, the stream stands right behind it, the end-of-file indicator is untouched -/
+theorem shr_string_inverse (blk : Nat) (hb : 1 ≤ blk) (s tail : Bytes) (e : Bool) (hs : s.length < 2147483648) :
+    readStr blk { rest := le32 s.length ++ s ++ tail, eof := e } = (s, { rest := tail, eof := e }) := by
+  unfold readStr
+  rw [List.append_assoc, shr_int_inverse s.length hs]
+  simp only [Int.toNat_natCast]
+  rw [AslProofs.FileShr.shrLoop_take blk hb s.length (s ++ tail) e [] (by simp)]
+  simp
+
+example : readStr 2 { rest := le32 3 ++ [97, 0, 98] ++ [99], eof := false } = ([97, 0, 98], { rest := [99], eof := false }) :=
+  shr_string_inverse 2 (by decide) [97, 0, 98] [99] false (by decide)
+
+/-- **shr_string_beyond**: a length that announces more bytes than the file still has gives the bytes that are there
+    (the loop stops at the first empty read), end-of-file set -/
+theorem shr_string_beyond (blk : Nat) (hb : 1 ≤ blk) (n : Nat) (hn : n < 2147483648) (body : Bytes) (e : Bool)
+    (hl : body.length < n) :
+    readStr blk { rest := le32 n ++ body, eof := e } = (body, { rest := [], eof := true }) := by
+  unfold readStr
+  rw [shr_int_inverse n hn]
+  simp only [Int.toNat_natCast]
+  rw [AslProofs.FileShr.shrLoop_short blk hb n body e [] hl]
+  simp
+
+example : readStr 1024 { rest := le32 5 ++ [97, 98], eof := false } = ([97, 98], { rest := [], eof := true }) :=
+  shr_string_beyond 1024 (by decide) 5 (by decide) [97, 98] false (by decide)
+
+/-- **shr_string_negative**: a negative length (bit 31 set) reads nothing: the empty string, the stream behind the four bytes -/
+theorem shr_string_negative (blk : Nat) (n : Nat) (hn : 2147483648 ≤ n) (hn2 : n < 4294967296) (body : Bytes) (e : Bool) :
+    readStr blk { rest := le32 n ++ body, eof := e } = ([], { rest := body, eof := e }) := by
+  have h4 : fread 4 { rest := le32 n ++ body, eof := e } = (le32 n, { rest := body, eof := e }) := by
+    simp [fread, le32]
+    intro h; have := of_decide_eq_true h; omega
+  have hv : leVal (le32 n) = n % 4294967296 := (le32_spec n).2
+  have hm : n % 4294967296 % 4294967296 = n := by omega
+  have hneg : toI32 (n % 4294967296) = (n : Int) - 4294967296 := by
+    unfold toI32
+    rw [hm]
+    have : ¬ n < 2147483648 := by omega
+    simp only [this, if_false]
+  unfold readStr
+  simp only [readI32, h4, hv, hneg]
+  have : ((n : Int) - 4294967296).toNat = 0 := by omega
+  rw [this, shrLoop]
+  simp
+
+example : readStr 1024 { rest := le32 4294967295 ++ [97], eof := false } = ([], { rest := [97], eof := false }) :=
+  shr_string_negative 1024 4294967295 (by decide) (by decide) [97] false
+
+/-- **shr_string_of_file**: through an open object that can read (`File f(p, READ)`; `hreadStr` is what the driver runs for
+    the K op `xshr`): `f >> x` returns the string that was written behind its length, the object stands behind it -/
+theorem shr_string_of_file (blk : Nat) (hb : 1 ≤ blk) (h : Handle) (hr : h.sm.canRead = true) (s tail : Bytes) (e : Bool)
+    (hs : s.length < 2147483648) (hrs : h.rs = { rest := le32 s.length ++ s ++ tail, eof := e }) :
+    hreadStr blk h = (s, { h with rs := { rest := tail, eof := e } }) := by
+  simp only [hreadStr, hr, if_true, hrs, shr_string_inverse blk hb s tail e hs]
 
 /-- **obj_copy_move_preserve**: `File::copy` / `File::move` of an object that was opened for WRITE or APPEND and written
     through (whatever is still in its buffer: `copy` flushes, `move` closes first — repair b3be5cd): the destination holds
